@@ -118,3 +118,25 @@ fn c10_truncate_then_extend_reads_zeros() -> Result {
     });
     sim.run()
 }
+
+/// F-C10-2 (open): a file that is removed and created again under the same name is a new, empty
+/// file; the simulated filesystem shows the removed file's unsynced data again.
+#[test]
+fn c10_recreated_file_is_empty() -> Result {
+    use std::os::unix::fs::FileExt;
+    use turmoil::fs::shim::std::fs::{remove_file, OpenOptions};
+    let mut sim = Builder::new().build();
+    sim.client("test", async {
+        {
+            let file = OpenOptions::new().read(true).write(true).create(true).open("/f")?;
+            file.write_all_at(b"ab", 0)?;
+        }
+        remove_file("/f")?;
+        let file = OpenOptions::new().read(true).write(true).create(true).open("/f")?;
+        assert_eq!(file.metadata()?.len(), 0, "a re-created file inherited the removed file's length");
+        let mut buf = [7u8; 2];
+        assert_eq!(file.read_at(&mut buf, 0)?, 0, "a re-created file inherited the removed file's data");
+        Ok(())
+    });
+    sim.run()
+}
